@@ -54,7 +54,7 @@ type callFn = func(ctx context.Context) (any, error)
 
 var adapters = []*adapter{
 	{name: "attestationdata-best", kind: "best", invalid: []string{"nildata", "niltarget", "badepoch", "otherepoch"}, maxQ: 4, dims: 2, mk: mkAttData, build: buildADBest},
-	{name: "attestationdata-majority", kind: "majority", threshold: true, invalid: []string{"nildata", "niltarget", "badepoch", "otherepoch"}, maxQ: 2, dims: 1, mk: mkAttData, build: buildADMajority},
+	{name: "attestationdata-majority", kind: "majority", threshold: true, invalid: []string{"nildata", "niltarget", "badepoch", "otherepoch"}, maxQ: 2, dims: 2, mk: mkAttData, build: buildADMajority},
 	{name: "attestationdata-first", kind: "first", invalid: []string{"nildata"}, maxQ: 4, dims: 2, mk: mkAttData, build: buildADFirst},
 	{name: "aggregateattestation-best", kind: "best", invalid: []string{"nildata"}, maxQ: 5, dims: 1, mk: mkAggregate, build: buildAABest},
 	{name: "aggregateattestation-first", kind: "first", invalid: []string{"nildata"}, maxQ: 5, dims: 1, mk: mkAggregate, build: buildAAFirst},
@@ -108,8 +108,14 @@ func mkAttData(h *harness, c content) any {
 	copy(d.Target.Root[:], marker(h, 0xa0, c))
 	switch {
 	case h.ad.kind == "majority":
-		// the variants are different views of the head
-		d.BeaconBlockRoot = headRoot(h.slot - 1 - uint64(c.Q))
+		if c.Dim == 1 {
+			// the variants agree on the head and differ in the justified checkpoint (and the target root)
+			d.BeaconBlockRoot = headRoot(h.slot - 1)
+			d.Source.Epoch = e - 6 + phase0.Epoch(c.Q)
+		} else {
+			// the variants are different views of the head
+			d.BeaconBlockRoot = headRoot(h.slot - 1 - uint64(c.Q))
+		}
 	case c.Dim == 0:
 		// higher justified checkpoint, everything else equal
 		d.Source.Epoch = e - 6 + phase0.Epoch(c.Q)
